@@ -149,7 +149,8 @@ class Real:
                 'doneq': [self.ids[t] for t in g._done], 'semv': g._semaphore._value, 'joined': g.joined,
                 'completed': self.ids.get(g.completed) if g.completed is not None else None,
                 'finished': sorted(i for t, i in self.ids.items() if i != 0 and t.done()),
-                'queue': q, 'jdone': bool(self.J is not None and self.J.done())}
+                'queue': q, 'jdone': bool(self.J is not None and self.J.done()),
+                'cancelreq': sorted(i for t, i in self.ids.items() if i != 0 and not t.done() and t.cancelling() > 0)}
 
 
 def run_case(case):
@@ -219,7 +220,7 @@ def run_case(case):
                     reacts[new] = 'reraise'
                     trace.append([['spawn', new, False], None])
                 if c[0] == 'step' and c[1] == 0:
-                    label = ['run', ['J'], order]
+                    label = ['run', ['J'], order, R.entered]
                 elif c[0] == 'ondone':
                     label = ['run', ['ondone', c[1]], []]
                 elif c[0] == 'pop':
@@ -245,7 +246,16 @@ def run_case(case):
             except RuntimeError:
                 late = 'refused'
         g = R.g
-        res = {'trace': trace, 'join_end': oracle['join_end'], 'late_add': late,
+        props = None
+        if g.joined:
+            def safe(f):
+                try:
+                    return ['val', f()]
+                except BaseException as e:
+                    return ['raises', type(e).__name__]
+            props = {'result': safe(lambda: g.result),
+                     'exception': safe(lambda: None if g.exception is None else type(g.exception).__name__)}
+        res = {'trace': trace, 'props': props, 'join_end': oracle['join_end'], 'late_add': late,
                'outcomes': {str(i): R.outcome(i) for t, i in R.ids.items() if i not in (0, 5000)},
                'completed': R.ids.get(g.completed) if g.completed is not None else None,
                'joined': g.joined, 'spawn_errors': R.spawn_errors}
@@ -292,7 +302,7 @@ def snap_term(s):
     return (f"{{| s_pending := {nl(s['pending'])}; s_daemons := {nl(s['daemons'])}; s_doneq := {nl(s['doneq'])}; "
             f"s_semv := {c_nat(s['semv'])}; s_joined := {c_bool(s['joined'])}; s_completed := {comp}; "
             f"s_finished := {nl(s['finished'])}; s_queue := {c_list([handle_term(h) for h in s['queue']], 'handle')}; "
-            f"s_jdone := {c_bool(s['jdone'])} |}}")
+            f"s_jdone := {c_bool(s['jdone'])}; s_cancelreq := {nl(s['cancelreq'])} |}}")
 
 
 def coq_case(case, obs):
